@@ -24,7 +24,7 @@ REPO = os.environ.get('VERIF_REPO', '/repo')
 def _sig(harness, f):
     s = f"{harness}:{f['label']}"
     if f.get('sig'):
-        s += '[' + ','.join(f"{k}={f['sig'][k]}" for k in sorted(f['sig'])) + ']'
+        s += '{' + ','.join(f"{k}={f['sig'][k]}" for k in sorted(f['sig'])) + '}'
     return s
 
 
@@ -167,26 +167,34 @@ def main(argv=None):
         for f in e.get('findings', []):
             by_sig.setdefault(f['signature'], []).append((e, f))
     violations, known_hits, nonrepro = [], [], []
+    counts = {}
+    for r in results:
+        for k, v in r.get('finding_counts', {}).items():
+            pass
+    # replay up to 3 examples per signature (in parallel: each replay is its own interpreter on the real library)
+    from concurrent.futures import ThreadPoolExecutor
+    todo = []
     for sig, lst in sorted(by_sig.items()):
-        reproduced = None
         for r, f in lst[:3]:
-            if 'replay_path' in f:       # produced by another engine, already a script
-                path = f['replay_path']
-            else:
-                path = write_replay(prop, modname, r['harness'], r['args'], f, sig)
-            rc, out = run_replay(path)
-            if rc == 1:
-                reproduced = (path, f, out)
-                break
-            nonrepro_last = (path, rc, out)
-        if reproduced is None:
-            nonrepro.append((sig,) + nonrepro_last)
+            path = f['replay_path'] if 'replay_path' in f else write_replay(prop, modname, r['harness'], r['args'], f, sig)
+            todo.append((sig, path, f))
+    with ThreadPoolExecutor(max_workers=min(16, max(1, len(todo)))) as tp:
+        outs = list(tp.map(lambda x: run_replay(x[1]), todo))
+    per = {}
+    for (sig, path, f), (rc, out) in zip(todo, outs):
+        per.setdefault(sig, []).append((path, f, rc, out))
+    for sig, lst in sorted(per.items()):
+        hit = next(((p, f, out) for p, f, rc, out in lst if rc == 1), None)
+        n = len(by_sig[sig])
+        if hit is None:
+            p, f, rc, out = lst[-1]
+            nonrepro.append((sig, p, rc, out))
             continue
         k = next((k for k in known if k.get('status') == 'known' and fnmatch.fnmatchcase(sig, k['signature'])), None)
         if k is not None:
-            known_hits.append((k, sig, reproduced[0], len(lst)))
+            known_hits.append((k, sig, hit[0], n))
         else:
-            violations.append((sig, reproduced[0], reproduced[1], len(lst)))
+            violations.append((sig, hit[0], hit[1], n))
 
     # ---- evidence
     tot = lambda k: sum(r.get(k, 0) for r in results)      # noqa
@@ -265,8 +273,13 @@ def main(argv=None):
           f"solver_s={ev['coverage']['solver_time_s']} inconclusive={incon} truncated={truncated} wall={ev['wall_s']}s")
     for reason, n in sorted(reasons.items(), key=lambda x: -x[1])[:8]:
         print(f"  inconclusive x{n}: {reason}")
+    seen = set()
     for k, sig, path, n in known_hits:
-        print(f"KNOWN-FINDING: property={prop} {k['what']} [signature {sig}; {n} path(s); replay {path}]")
+        if id(k) in seen:
+            continue
+        seen.add(id(k))
+        sigs = [s2 for k2, s2, _, _ in known_hits if k2 is k]
+        print(f"KNOWN-FINDING: property={prop} {k['what']} [{len(sigs)} signature(s), e.g. {sig}; replay {path}]")
     for sig, path, rc, out in nonrepro:
         print(f"HARNESS-ERROR property={prop} counterexample did not reproduce on the real code: {sig} ({path}) rc={rc}\n{out[-800:]}")
     for sig, path, f, n in violations:
